@@ -40,6 +40,7 @@ type EntryCfg struct {
 	InitAllow           []string          `json:"init_allow"`
 	NativeReplay        *bool             `json:"native_replay"`
 	TimersManual        bool              `json:"timers_manual"`
+	WitnessReplay       bool              `json:"witness_replay"`
 	ClockStart          int64             `json:"clock_start"`
 	Race                bool              `json:"race"`
 	Opaque              []string          `json:"opaque"`
